@@ -70,9 +70,9 @@ def run(chk):
     # GensView), and the generators prove / verify work with are party 0's window of the role's table (GensBound)
     for curve, n in (("toy31723", 150 if q else 2000), ("toy79", 150 if q else 2000)):
         vlib.session_traces(chk, curve, n, vlib.flags(G=1), "table-session", seed_off=50)
-    # ... and longer table-only lives on the 256-bit curves (values compared as encodings): up to 6 (10) operations, capacities to 16 (48), 0..3 (4) parties
+    # ... and longer table-only lives on the 256-bit curves (values compared as encodings): up to 6 (10) operations, capacities to 16 (32), 0..3 (4) parties
     for c in vlib.REAL_CURVES:
-        vlib.table_lives(chk, c, 40 if q else 400, 16 if q else 48, 3 if q else 4, 6 if q else 10, "table-life", seed_off=70)
+        vlib.table_lives(chk, c, 40 if q else 150, 16 if q else 32, 3 if q else 4, 6 if q else 10, "table-life", seed_off=70)
     chk.finish(
         rule="TLC enumerates every history new(c0) ; (increase_capacity(c) | serialise+deserialise | clone)* with capacities <= %d, parties <= %d, <= %d "
              "operations, checks HistoryIndependent and ViewPartyMajor on the model, and prints each history with the expected capacity after every "
